@@ -84,7 +84,9 @@ Definition dispatch_c08 (ts : list tok) : list tok :=
     match codec_of_code (Z.to_N k) with
     | None => [W "model-error"]
     | Some c =>
-      if is_word "enc" op then let y := encode c x in TB y :: dec_obs c y
+      if is_word "enc" op then
+        let y := encode c x in
+        TB y :: dec_obs c y ++ [W "ratio"; TN ((ratio_num c * 1000000 + ratio_den c / 2) / ratio_den c)]
       else if is_word "dec" op then dec_obs c x
       else [W "model-error"]
     end
